@@ -1016,6 +1016,9 @@ def vendor_cases():
         out.append({"vendor": "clickhouse-functions", "cls": c})
     out.append({"vendor": "mysql-load", "cls": "MySQLQuery"})
     out.append({"vendor": "vertica-copy", "cls": "VerticaQuery"})
+    # statements started from a Table object made by the class's factories: the dialect context is the table's query_cls
+    for c in CLS_NAMES:
+        out.append({"vendor": "factory", "cls": c})
     # ONE set of term / table objects embedded in statements of every class, rendered in varying orders (and pre-rendered
     # with str()): rendering is a pure function of the statement and the class, so the text must equal that of fresh objects
     for order in range(len(SHARED_ORDERS)):
@@ -1149,6 +1152,84 @@ def _cl_sqlite(Q, t, reg):
 
 def _cl_vertica(Q, t, reg):
     return Q.from_(t).select(t.field(reg("zc20", "ident")).as_(reg("za21", "alias"))).hint("lbl")
+
+
+# ----------------------------------------------------------------------------------------------
+# table factories: X.Table / X.Tables / Table(query_cls=X) / make_tables(query_cls=X), and copies of such tables
+# ----------------------------------------------------------------------------------------------
+def run_factory(cls_name):
+    import pypika
+    from pypika import Table
+    from pypika.queries import make_tables
+    X = qclass(cls_name)
+    routes = {}
+    routes["X.Table"] = (X.Table("orders"), ("orders", None, None))
+    routes["X.Table+schema"] = (X.Table("orders", schema="sch"), ("orders", "sch", None))
+    routes["X.Table+alias"] = (X.Table("orders", alias="o"), ("orders", None, "o"))
+    tabs = X.Tables("items", ("orders", "o"), ("cust", "c"), "last")
+    routes["X.Tables[str-first]"] = (tabs[0], ("items", None, None))
+    routes["X.Tables[tuple]"] = (tabs[1], ("orders", None, "o"))
+    routes["X.Tables[tuple-2]"] = (tabs[2], ("cust", None, "c"))
+    routes["X.Tables[str-last]"] = (tabs[3], ("last", None, None))
+    tabs = X.Tables(("orders", "o"), schema="sch")
+    routes["X.Tables[tuple]+schema"] = (tabs[0], ("orders", "sch", "o"))
+    routes["Table(query_cls)"] = (Table("orders", query_cls=X), ("orders", None, None))
+    routes["Table(query_cls)+alias"] = (Table("orders", alias="o", schema="sch", query_cls=X), ("orders", "sch", "o"))
+    mt = make_tables("items", ("orders", "o"), query_cls=X)
+    routes["make_tables[str]"] = (mt[0], ("items", None, None))
+    routes["make_tables[tuple]"] = (mt[1], ("orders", None, "o"))
+    mt = pypika.Tables(("orders", "o"), "items", query_cls=X)
+    routes["pypika.Tables[tuple]"] = (mt[0], ("orders", None, "o"))
+    routes["X.Table.as_"] = (X.Table("orders").as_("o"), ("orders", None, "o"))
+    routes["X.Table.for_"] = (X.Table("orders").for_(pypika.SYSTEM_TIME.as_of("2020-01-01")), None)
+    rows = []
+    for route, (t, plain) in routes.items():
+        if plain is None:
+            ref_t = Table("orders").for_(pypika.SYSTEM_TIME.as_of("2020-01-01"))
+        else:
+            ref_t = Table(plain[0], schema=plain[1])
+            if plain[2] is not None:
+                ref_t = ref_t.as_(plain[2])
+        stmts = {
+            "select": (lambda tb, start: start(tb).select(tb.field("id").as_("k"), "name").where(tb.field("name") == "it's").orderby(tb.field("id")).limit(5).offset(2)),
+            "select-union": (lambda tb, start: start(tb).select(tb.field("id")).union(start(tb).select(tb.field("id")).where(tb.field("id") > 1))),
+        }
+        for label, fn in stmts.items():
+            try:
+                got = str(fn(t, lambda tb: _Sel(tb)))
+                ref = str(fn(ref_t, lambda tb: _Ref(X, tb)))
+            except Exception as e:  # noqa
+                got, ref = "!" + type(e).__name__, "!reference"
+            rows.append([route, label, got, ref])
+        try:
+            got, ref = str(t.update().set("name", "x").set("flag", True).where(t.field("id") == 1)), \
+                str(X.update(ref_t).set("name", "x").set("flag", True).where(ref_t.field("id") == 1))
+        except Exception as e:  # noqa
+            got, ref = "!" + type(e).__name__, "!reference"
+        rows.append([route, "update", got, ref])
+        try:
+            got, ref = str(t.insert(1, "x", True)), str(X.into(ref_t).insert(1, "x", True))
+        except Exception as e:  # noqa
+            got, ref = "!" + type(e).__name__, "!reference"
+        rows.append([route, "insert", got, ref])
+    return {"text": "", "meta": {}, "rows": rows}
+
+
+class _Sel:
+    """table.select(...) as a starting point with the same surface as X.from_(table)"""
+    def __init__(self, tb):
+        self.tb = tb
+
+    def select(self, *terms):
+        return self.tb.select(*terms)
+
+
+class _Ref:
+    def __init__(self, X, tb):
+        self.X, self.tb = X, tb
+
+    def select(self, *terms):
+        return self.X.from_(self.tb).select(*terms)
 
 
 # ----------------------------------------------------------------------------------------------
@@ -1289,6 +1370,8 @@ def run_vendor(case):
     t = Table(reg("zt1", "ident"))
     if v == "shared-terms":
         return run_shared(case["order"])
+    if v == "factory":
+        return run_factory(case["cls"])
     if v == "clause-inventory":
         own, other = clause_inventory(case["cls"])
         covered = set()
@@ -1374,6 +1457,14 @@ def run_vendor(case):
 
 def vendor_oracle(case, outcome):
     cls, v = case["cls"], case["vendor"]
+    if v == "factory":
+        out = []
+        for route, label, got, ref in outcome.get("rows", []):
+            if got != ref:
+                out.append({"signature": ["C07", cls, cls, "vendor:factory", route + "/" + label],
+                            "what": "a statement started from a table made by %s of %s renders %r, the same statement started from %s.from_()/update()/into() "
+                                    "renders %r" % (route, cls, got, cls, ref)})
+        return out
     if v == "shared-terms":
         out, seen = [], set()
         for kind, step, first, shared, fresh in outcome.get("rows", []):
